@@ -32,6 +32,8 @@ type scenario struct {
 	Seq [][]txn.Prog
 	// MaxTime is the transactions' commit budget and lock TTL (0 = default 15 min).
 	MaxTime time.Duration
+	// NewStores: stores that the programs create themselves with NewBtree (C12 concurrent creation).
+	NewStores []txn.StoreSpec
 	// StallThread0 (C15): additionally explore, for every scheduling point k of thread 0, the execution in
 	// which thread 0 stalls forever at k while the others run on.
 	StallThread0 bool
@@ -57,6 +59,17 @@ type execEnv struct {
 	c37      []string
 }
 
+func newStoreMap(sc *scenario) map[string]txn.StoreSpec {
+	if len(sc.NewStores) == 0 {
+		return nil
+	}
+	m := map[string]txn.StoreSpec{}
+	for _, s := range sc.NewStores {
+		m[s.Name] = s
+	}
+	return m
+}
+
 func stallMap(sc *scenario) map[int]int {
 	if sc.stallAt > 0 {
 		return map[int]int{0: sc.stallAt}
@@ -75,6 +88,9 @@ func mkSeq(sc *scenario) *scenario {
 func names(sc *scenario) []string {
 	var n []string
 	for _, s := range sc.Stores {
+		n = append(n, s.Name)
+	}
+	for _, s := range sc.NewStores {
 		n = append(n, s.Name)
 	}
 	return n
@@ -129,7 +145,7 @@ func mkScenario(sc *scenario) *sched.Scenario {
 					specs = append(specs, sched.ThreadSpec{Name: p.Name, Fn: func(t *sched.T) {
 						ctx := context.WithValue(t.Ctx(), txn.StampKey{}, func() int { return t.X().TraceLen() })
 						ctx = context.WithValue(ctx, txn.ClockKey{}, func() int64 { return t.Now().UnixNano() })
-						env.recs[i] = txn.Run(ctx, p, nil)
+						env.recs[i] = txn.Run(ctx, p, newStoreMap(sc))
 					}})
 				}
 			}
@@ -511,6 +527,11 @@ func checkExecution(run *ev.Run, prop string, sc *scenario, x *sched.Execution, 
 		}
 	}
 	for n, e := range env.cold.Errs {
+		if prop == "C12" && newStoreMap(sc) != nil {
+			if _, isNew := newStoreMap(sc)[n]; isNew {
+				continue // judged by checkC12 (the store may legitimately not exist)
+			}
+		}
 		viol("unreadable-cold", fmt.Sprintf("store %s unreadable with cold caches after the run: %s", n, e))
 		return
 	}
@@ -560,6 +581,8 @@ func checkExecution(run *ev.Run, prop string, sc *scenario, x *sched.Execution, 
 				viol("count-mismatch", fmt.Sprintf("store %s count=%d items=%d", s.Name, env.cold.Counts[s.Name], len(env.cold.Stores[s.Name])))
 			}
 		}
+	case "C12":
+		checkC12(viol, sc, env)
 	case "C20":
 		checkC20(viol, sc, env, initial, unique)
 	case "C03":
@@ -1175,5 +1198,61 @@ func installMonitor(x *sched.Execution, env *execEnv) {
 			}
 		}
 		env.blocks[key] = append([]byte(nil), block...)
+	}
+}
+
+// checkC12 (concurrent creation): exactly one store per name afterwards, listed once, holding every item of
+// every transaction that committed.
+func checkC12(viol func(kind, detail string), sc *scenario, env *execEnv) {
+	b, _ := os.ReadFile(filepath.Join(sopenv.Dir, "storelist.txt"))
+	var list []string
+	json.Unmarshal(b, &list)
+	seen := map[string]int{}
+	for _, n := range list {
+		seen[n]++
+	}
+	for _, ns := range sc.NewStores {
+		committed := 0
+		want := map[int]string{}
+		for _, r := range env.recs {
+			if r == nil || !r.Committed {
+				continue
+			}
+			committed++
+			for _, res := range r.Results {
+				if res.Op.Store == ns.Name && res.OK && (res.Op.Kind == "add" || res.Op.Kind == "upsert") {
+					want[res.Op.K] = res.Op.V
+				}
+			}
+		}
+		if seen[ns.Name] > 1 {
+			viol("store-listed-twice", fmt.Sprintf("storelist.txt = %v", list))
+		}
+		if committed == 0 {
+			if seen[ns.Name] > 0 || env.cold.Errs[ns.Name] == "" {
+				viol("store-exists-although-no-creator-committed", fmt.Sprintf("storelist=%v cold=%s", list, env.cold.String()))
+			}
+			continue
+		}
+		if seen[ns.Name] != 1 {
+			viol("committed-store-not-listed-once", fmt.Sprintf("storelist.txt = %v", list))
+		}
+		if e := env.cold.Errs[ns.Name]; e != "" {
+			viol("committed-store-unreadable", e)
+			continue
+		}
+		got := map[int]string{}
+		for _, kv := range env.cold.Stores[ns.Name] {
+			if _, dup := got[kv.K]; dup {
+				viol("duplicate-key-in-created-store", fmt.Sprint(env.cold.Stores[ns.Name]))
+			}
+			got[kv.K] = kv.V
+		}
+		for k, v := range want {
+			if got[k] != v {
+				viol("committed-item-missing-after-concurrent-creation", fmt.Sprintf("store %s: committed creators wrote %v, store holds %v", ns.Name, want, env.cold.Stores[ns.Name]))
+				break
+			}
+		}
 	}
 }
